@@ -1,122 +1,843 @@
 (** Proofs about the codec model (C10, C11). *)
-From Coq Require Import Decimal DecimalN.
-From Tftp Require Import Base.Prelude Base.Utf8 Base.Decimal Model.Types Model.Consts Model.Codec.
+From Coq Require Import Decimal DecimalN DecimalFacts.
+From Coq Require Import ZArith Lia ZifyBool ZifyNat ZifyN.
+From Tftp Require Import Base.Prelude Base.Utf8 Base.Decimal Model.Types Model.Consts Model.Codec Model.Rfc.
+From Tftp Require Import Proofs.ListAux.
 Local Open Scope N_scope.
 
 (** ** Decimal *)
 
-Theorem decimal_roundtrip : forall n, n < usize_limit -> parse_usize (to_dec n) = Some n.
-Admitted.
-
 Definition is_digit (b : N) : Prop := 48 <= b <= 57.
+
+Lemma uint_of_bytes_of_uint : forall u, uint_of_bytes (bytes_of_uint u) = Some u.
+Proof.
+  induction u as [|u IHu|u IHu|u IHu|u IHu|u IHu|u IHu|u IHu|u IHu|u IHu|u IHu];
+    cbn [bytes_of_uint uint_of_bytes]; try rewrite IHu; reflexivity.
+Qed.
+
+Lemma bytes_of_uint_digits : forall u, Forall is_digit (bytes_of_uint u).
+Proof.
+  induction u as [|u IHu|u IHu|u IHu|u IHu|u IHu|u IHu|u IHu|u IHu|u IHu|u IHu];
+    cbn [bytes_of_uint]; constructor; try exact IHu; unfold is_digit; lia.
+Qed.
+
+Lemma digit_cons_inv : forall c u d, digit_cons c u = Some d -> is_digit c.
+Proof.
+  intros c u d. unfold digit_cons, is_digit.
+  repeat match goal with
+  | |- context [N.eqb c ?k] =>
+      destruct (N.eqb_spec c k) as [->|_]; [intros _; lia|]
+  end.
+  intros H; discriminate H.
+Qed.
+
+Lemma uint_of_bytes_digits : forall s u, uint_of_bytes s = Some u -> Forall is_digit s.
+Proof.
+  induction s as [|c r IH]; intros u H.
+  - constructor.
+  - cbn [uint_of_bytes] in H.
+    destruct (uint_of_bytes r) as [u'|] eqn:Er; [|discriminate H].
+    constructor; [exact (digit_cons_inv _ _ _ H)|exact (IH u' eq_refl)].
+Qed.
+
+Lemma uint_of_bytes_nondigit : forall s b, In b s -> ~ is_digit b -> uint_of_bytes s = None.
+Proof.
+  intros s b Hin Hnd. destruct (uint_of_bytes s) as [u|] eqn:E; [|reflexivity].
+  exfalso. apply Hnd. pose proof (uint_of_bytes_digits _ _ E) as HF.
+  rewrite Forall_forall in HF. exact (HF b Hin).
+Qed.
+
+(** [parse_usize] on a string that does not start with '+'. *)
+Lemma parse_usize_noplus : forall c r,
+  c <> 43 ->
+  parse_usize (c :: r) =
+  match uint_of_bytes (c :: r) with
+  | Some u => if N.of_uint u <? usize_limit then Some (N.of_uint u) else None
+  | None => None
+  end.
+Proof.
+  intros c r Hc. unfold parse_usize.
+  destruct (N.eqb_spec c 43) as [E|_]; [contradiction|]. reflexivity.
+Qed.
+
+Lemma parse_usize_plus : forall r,
+  parse_usize (43 :: r) =
+  match r with
+  | [] => None
+  | _ => match uint_of_bytes r with
+         | Some u => if N.of_uint u <? usize_limit then Some (N.of_uint u) else None
+         | None => None
+         end
+  end.
+Proof. intros r. reflexivity. Qed.
+
+Lemma to_dec_digits : forall n, Forall is_digit (to_dec n).
+Proof. intros n. apply bytes_of_uint_digits. Qed.
+
+Lemma to_uint_unorm : forall n, N.to_uint n = unorm (N.to_uint n).
+Proof.
+  intros n. rewrite <- DecimalN.Unsigned.to_of, DecimalN.Unsigned.of_to. reflexivity.
+Qed.
+
+Lemma to_dec_nonnil : forall n, to_dec n <> [].
+Proof.
+  intros n H. unfold to_dec in H.
+  destruct (N.to_uint n) eqn:E; cbn [bytes_of_uint] in H; try discriminate H.
+  rewrite to_uint_unorm in E. exact (unorm_nonnil _ E).
+Qed.
+
+Theorem decimal_roundtrip : forall n, n < usize_limit -> parse_usize (to_dec n) = Some n.
+Proof.
+  intros n Hn.
+  pose proof (to_dec_digits n) as Hd. pose proof (to_dec_nonnil n) as Hne.
+  assert (Hu : uint_of_bytes (to_dec n) = Some (N.to_uint n))
+    by apply uint_of_bytes_of_uint.
+  destruct (to_dec n) as [|c r]; [congruence|].
+  inversion Hd as [|? ? Hc _]; subst.
+  rewrite parse_usize_noplus by (unfold is_digit in Hc; lia).
+  rewrite Hu, DecimalN.Unsigned.of_to.
+  destruct (N.ltb_spec n usize_limit); [reflexivity|lia].
+Qed.
 
 (** [to_dec] produces digits only, at least one, and no leading zero except for 0 itself. *)
 Theorem to_dec_shape : forall n,
   Forall is_digit (to_dec n) /\ to_dec n <> [] /\ (forall r, to_dec n = 48 :: r -> r = [] /\ n = 0).
-Admitted.
+Proof.
+  intros n. split; [apply to_dec_digits|]. split; [apply to_dec_nonnil|].
+  intros r Hr. unfold to_dec in Hr.
+  destruct (N.to_uint n) as [|u|u|u|u|u|u|u|u|u|u] eqn:E;
+    cbn [bytes_of_uint] in Hr; try discriminate Hr.
+  injection Hr as Hr.
+  pose proof (to_uint_unorm n) as Hun. rewrite E in Hun.
+  unfold unorm in Hun. cbn [nzhead] in Hun.
+  destruct (nzhead u) as [|u'|u'|u'|u'|u'|u'|u'|u'|u'|u'] eqn:En; try discriminate Hun.
+  - injection Hun as Hun. subst u. cbn [bytes_of_uint] in Hr. split; [symmetry; exact Hr|].
+    rewrite <- (DecimalN.Unsigned.of_to n), E. reflexivity.
+  - exfalso. exact (nzhead_nonzero _ _ En).
+Qed.
 
 (** What [parse_usize] accepts: an optional single '+', then one or more digits, value below 2^64. *)
 Theorem parse_usize_some : forall s v, parse_usize s = Some v ->
   exists ds, (s = ds \/ s = 43 :: ds) /\ ds <> [] /\ Forall is_digit ds /\ v < usize_limit.
-Admitted.
+Proof.
+  intros s v H. destruct s as [|c r]; [discriminate H|].
+  destruct (N.eq_dec c 43) as [->|Hc].
+  - rewrite parse_usize_plus in H. destruct r as [|c' r']; [discriminate H|].
+    destruct (uint_of_bytes (c' :: r')) as [u|] eqn:Eu; [|discriminate H].
+    destruct (N.ltb_spec (N.of_uint u) usize_limit) as [Hlt|_]; [|discriminate H].
+    injection H as <-. exists (c' :: r').
+    split; [right; reflexivity|]. split; [discriminate|].
+    split; [exact (uint_of_bytes_digits _ _ Eu)|exact Hlt].
+  - rewrite (parse_usize_noplus _ _ Hc) in H.
+    destruct (uint_of_bytes (c :: r)) as [u|] eqn:Eu; [|discriminate H].
+    destruct (N.ltb_spec (N.of_uint u) usize_limit) as [Hlt|_]; [|discriminate H].
+    injection H as <-. exists (c :: r).
+    split; [left; reflexivity|]. split; [discriminate|].
+    split; [exact (uint_of_bytes_digits _ _ Eu)|exact Hlt].
+Qed.
 
 Theorem parse_usize_nondigit : forall s, (exists b, In b s /\ ~ is_digit b /\ b <> 43) -> parse_usize s = None.
-Admitted.
+Proof.
+  intros s (b & Hin & Hnd & Hb). destruct s as [|c r]; [reflexivity|].
+  destruct (N.eq_dec c 43) as [->|Hc].
+  - rewrite parse_usize_plus. destruct r as [|c' r']; [reflexivity|].
+    destruct Hin as [E|Hin]; [congruence|].
+    rewrite (uint_of_bytes_nondigit _ _ Hin Hnd). reflexivity.
+  - rewrite (parse_usize_noplus _ _ Hc).
+    rewrite (uint_of_bytes_nondigit _ _ Hin Hnd). reflexivity.
+Qed.
 
 (** ** Tables (stated over all of N, hence over the whole 16-bit range) *)
 
+Ltac split_keys v fin :=
+  repeat match goal with
+  | |- context [N.eqb v ?k] =>
+      destruct (N.eqb_spec v k) as [->|?]; [cbv iota; fin|]
+  end; cbv iota.
+
 Theorem opcode_inverse : forall v c, opcode_of_u16 v = Some c <-> u16_of_opcode c = v.
-Admitted.
+Proof.
+  intros v c. split.
+  - unfold opcode_of_u16, opcode_from_u16. cbn [assoc].
+    split_keys v ltac:(intros [= <-]; reflexivity).
+    intros H; discriminate H.
+  - intros <-. destruct c; reflexivity.
+Qed.
 
 Theorem opcode_accepted_range : forall v, opcode_of_u16 v <> None <-> 1 <= v <= 6.
-Admitted.
+Proof.
+  intros v. split.
+  - unfold opcode_of_u16, opcode_from_u16. cbn [assoc].
+    split_keys v ltac:(intros _; lia).
+    intros H. exfalso. apply H. reflexivity.
+  - intros H.
+    assert (Hv : v = 1 \/ v = 2 \/ v = 3 \/ v = 4 \/ v = 5 \/ v = 6) by lia.
+    repeat destruct Hv as [->|Hv]; try subst v; vm_compute; discriminate.
+Qed.
 
 Theorem errcode_inverse : forall v c, errcode_of_u16 v = Some c <-> u16_of_errcode c = v.
-Admitted.
+Proof.
+  intros v c. split.
+  - unfold errcode_of_u16, errcode_from_u16. cbn [assoc].
+    split_keys v ltac:(intros [= <-]; reflexivity).
+    intros H; discriminate H.
+  - intros <-. destruct c; reflexivity.
+Qed.
 
 Theorem errcode_accepted_range : forall v, errcode_of_u16 v <> None <-> v <= 7.
-Admitted.
+Proof.
+  intros v. split.
+  - unfold errcode_of_u16, errcode_from_u16. cbn [assoc].
+    split_keys v ltac:(intros _; lia).
+    intros H. exfalso. apply H. reflexivity.
+  - intros H.
+    assert (Hv : v = 0 \/ v = 1 \/ v = 2 \/ v = 3 \/ v = 4 \/ v = 5 \/ v = 6 \/ v = 7) by lia.
+    repeat destruct Hv as [->|Hv]; try subst v; vm_compute; discriminate.
+Qed.
 
 Theorem option_name_inverse : forall o, opt_of_name (opt_name o) = Some o.
-Admitted.
+Proof. intros o. destruct o; reflexivity. Qed.
 
 Theorem option_name_recognised : forall o, recognise (opt_name o) = Some o.
-Admitted.
+Proof. intros o. destruct o; reflexivity. Qed.
 
 (** ** RFC 1350 / 2347 layout, written with literal numbers and names (independent of the generated tables) *)
 
-Definition rfc_opt_name (o : opt_type) : bytes :=
-  match o with
-  | OBlkSize => [98; 108; 107; 115; 105; 122; 101]               (* "blksize" *)
-  | OTSize => [116; 115; 105; 122; 101]                          (* "tsize" *)
-  | OTimeout => [116; 105; 109; 101; 111; 117; 116]              (* "timeout" *)
-  | OWindowSize => [119; 105; 110; 100; 111; 119; 115; 105; 122; 101] (* "windowsize" *)
-  end.
+Lemma enc_opts_cons : forall o os, enc_opts (o :: os) = enc_opt o ++ enc_opts os.
+Proof. reflexivity. Qed.
 
-Definition rfc_errcode (c : errcode) : N :=
-  match c with
-  | ENotDefined => 0 | EFileNotFound => 1 | EAccessViolation => 2 | EDiskFull => 3
-  | EIllegalOperation => 4 | EUnknownId => 5 | EFileExists => 6 | ENoSuchUser => 7
-  end.
+Lemma opt_name_rfc : forall o, opt_name o = rfc_opt_name o.
+Proof. intros o. destruct o; reflexivity. Qed.
 
-Fixpoint rfc_opts (os : list topt) : bytes :=
-  match os with
-  | [] => []
-  | o :: r => rfc_opt_name (o_type o) ++ 0 :: to_dec (o_val o) ++ 0 :: rfc_opts r
-  end.
-
-Definition rfc_layout (p : packet) : bytes :=
-  match p with
-  | Rrq f m os => 0 :: 1 :: f ++ 0 :: m ++ 0 :: rfc_opts os
-  | Wrq f m os => 0 :: 2 :: f ++ 0 :: m ++ 0 :: rfc_opts os
-  | Data n d => 0 :: 3 :: n / 256 :: n mod 256 :: d
-  | Ack n => [0; 4; n / 256; n mod 256]
-  | Error c m => 0 :: 5 :: 0 :: rfc_errcode c :: m ++ [0]
-  | Oack os => 0 :: 6 :: rfc_opts os
-  end.
+Lemma enc_opts_rfc : forall os, enc_opts os = rfc_opts os.
+Proof.
+  induction os as [|o os IH]; [reflexivity|].
+  unfold enc_opts in *. cbn [flat_map rfc_opts]. rewrite IH. unfold enc_opt.
+  rewrite opt_name_rfc. rewrite <- !app_assoc. reflexivity.
+Qed.
 
 Theorem encode_layout : forall p, encode p = rfc_layout p.
-Admitted.
+Proof.
+  intros p. destruct p as [f m os|f m os|n d|n|c m|os];
+    cbn [encode rfc_layout]; rewrite ?enc_opts_rfc; try reflexivity.
+  destruct c; reflexivity.
+Qed.
+
+(** ** Helper lemmas: [to_string] *)
+
+Lemma to_string_app : forall pre s post start z,
+  start = length pre -> z = (length s + start)%nat ->
+  nonul s -> utf8_valid s = true ->
+  to_string (pre ++ s ++ 0 :: post) start = Ok (s, z).
+Proof.
+  intros pre s post start z Hstart Hz Hn Hu. subst start z.
+  unfold to_string, slice_from.
+  destruct (Nat.ltb_spec (length (pre ++ s ++ 0 :: post)) (length pre)) as [Hlt|_].
+  - rewrite app_length in Hlt. lia.
+  - cbn [bind]. rewrite (skipn_app_exact pre _ _ eq_refl).
+    rewrite (find_zero_app s post Hn). cbv zeta.
+    rewrite (firstn_app_exact s _ _ eq_refl), Hu. reflexivity.
+Qed.
+
+Lemma to_string_ok : forall buf start s z, to_string buf start = Ok (s, z) ->
+  (start <= length buf)%nat /\ z = (length s + start)%nat /\ (z < length buf)%nat /\
+  utf8_valid s = true /\ nonul s /\ skipn start buf = s ++ 0 :: skipn (S z) buf.
+Proof.
+  intros buf start s z H. unfold to_string, slice_from in H.
+  destruct (Nat.ltb_spec (length buf) start) as [Hlt|Hle]; cbn [bind] in H;
+    [discriminate H|].
+  cbv zeta in H.
+  destruct (find_zero (skipn start buf)) as [idx|] eqn:Ef; [|discriminate H].
+  destruct (utf8_valid (firstn idx (skipn start buf))) eqn:Eu; [|discriminate H].
+  injection H as Hs Hz.
+  destruct (find_zero_some _ _ Ef) as (Hi & Hn & Hsk).
+  rewrite skipn_length in Hi.
+  assert (Hlen : length s = idx).
+  { rewrite <- Hs, firstn_length, skipn_length. lia. }
+  split; [exact Hle|]. split; [lia|]. split; [lia|].
+  split; [rewrite <- Hs; exact Eu|]. split; [rewrite <- Hs; exact Hn|].
+  pose proof (firstn_skipn idx (skipn start buf)) as Hfs.
+  rewrite Hs, Hsk, skipn_skipn' in Hfs.
+  replace (S z) with (S idx + start)%nat by lia. symmetry. exact Hfs.
+Qed.
+
+Lemma to_string_cases : forall buf start, (start <= length buf)%nat ->
+  (exists s z, to_string buf start = Ok (s, z)) \/
+  (exists e, to_string buf start = Err e /\ e <> EFuel).
+Proof.
+  intros buf start Hle. unfold to_string, slice_from.
+  destruct (Nat.ltb_spec (length buf) start) as [Hlt|_]; [lia|]. cbn [bind]. cbv zeta.
+  destruct (find_zero (skipn start buf)) as [idx|].
+  - destruct (utf8_valid (firstn idx (skipn start buf))).
+    + left. eexists. eexists. reflexivity.
+    + right. exists EUtf8. split; [reflexivity|discriminate].
+  - right. exists ENoNul. split; [reflexivity|discriminate].
+Qed.
+
+(** A string whose terminator is the last byte of the buffer. *)
+Lemma to_string_last : forall buf start s z,
+  to_string buf start = Ok (s, z) -> (S z = length buf)%nat -> exists pre, buf = pre ++ [0].
+Proof.
+  intros buf start s z H Hz.
+  destruct (to_string_ok _ _ _ _ H) as (_ & _ & _ & _ & _ & Hsk).
+  assert (Hnil : skipn (S z) buf = []) by (apply skipn_all2; lia).
+  rewrite Hnil in Hsk.
+  exists (firstn start buf ++ s).
+  rewrite <- app_assoc, <- Hsk, firstn_skipn. reflexivity.
+Qed.
+
+(** ** Helper lemmas: the option loop *)
+
+Lemma parse_opts_done : forall f buf zi,
+  (0 < length buf)%nat -> (length buf <= zi + 1)%nat -> parse_opts f buf zi = Ok [].
+Proof.
+  intros f buf zi H0 Hle.
+  destruct f as [|f]; cbn [parse_opts];
+    (destruct (length buf) as [|lm1]; [lia|];
+     destruct (Nat.ltb_spec zi lm1) as [Hlt|_]; [lia|reflexivity]).
+Qed.
+
+Lemma parse_opts_zero_lt : forall buf zi,
+  (zi + 1 < length buf)%nat -> parse_opts 0 buf zi = Err EFuel.
+Proof.
+  intros buf zi H. cbn [parse_opts]. destruct (length buf) as [|lm1]; [lia|].
+  destruct (Nat.ltb_spec zi lm1) as [_|Hge]; [reflexivity|lia].
+Qed.
+
+Lemma parse_opts_more : forall f buf zi, (zi + 1 < length buf)%nat ->
+  parse_opts (S f) buf zi =
+  (do (name, zi1) <- to_string buf (zi + 1);
+   do (val, zi2) <- to_string buf (zi1 + 1);
+   match recognise name with
+   | Some ty =>
+     match parse_usize val with
+     | Some v => do os <- parse_opts f buf zi2; Ok (mk_opt ty v :: os)
+     | None => Err ENum
+     end
+   | None => parse_opts f buf zi2
+   end).
+Proof.
+  intros f buf zi H. cbn [parse_opts]. destruct (length buf) as [|lm1]; [lia|].
+  destruct (Nat.ltb_spec zi lm1) as [_|Hge]; [reflexivity|lia].
+Qed.
+
+Lemma parse_opts_turn_known : forall f buf zi name z1 val z2 ty,
+  (zi + 1 < length buf)%nat ->
+  to_string buf (zi + 1) = Ok (name, z1) -> to_string buf (z1 + 1) = Ok (val, z2) ->
+  recognise name = Some ty ->
+  parse_opts (S f) buf zi =
+  match parse_usize val with
+  | Some v => do os <- parse_opts f buf z2; Ok (mk_opt ty v :: os)
+  | None => Err ENum
+  end.
+Proof.
+  intros f buf zi name z1 val z2 ty Hlt H1 H2 Hr.
+  rewrite (parse_opts_more _ _ _ Hlt), H1. cbn [bind]. rewrite H2. cbn [bind].
+  rewrite Hr. reflexivity.
+Qed.
+
+Lemma parse_opts_turn_unknown : forall f buf zi name z1 val z2,
+  (zi + 1 < length buf)%nat ->
+  to_string buf (zi + 1) = Ok (name, z1) -> to_string buf (z1 + 1) = Ok (val, z2) ->
+  recognise name = None ->
+  parse_opts (S f) buf zi = parse_opts f buf z2.
+Proof.
+  intros f buf zi name z1 val z2 Hlt H1 H2 Hr.
+  rewrite (parse_opts_more _ _ _ Hlt), H1. cbn [bind]. rewrite H2. cbn [bind].
+  rewrite Hr. reflexivity.
+Qed.
+
+Lemma opt_name_wf : forall ty, nonul (opt_name ty) /\ utf8_valid (opt_name ty) = true.
+Proof.
+  intros ty. destruct ty; (split; [apply nonulb_sound; reflexivity|reflexivity]).
+Qed.
+
+Lemma digits_nonul : forall s, Forall is_digit s -> nonul s.
+Proof.
+  intros s. apply nonul_Forall. unfold is_digit. intros b Hb. lia.
+Qed.
+
+Lemma digits_utf8 : forall s, Forall is_digit s -> utf8_valid s = true.
+Proof.
+  intros s H. apply utf8_valid_ascii. eapply Forall_impl; [|exact H].
+  unfold is_digit. intros b Hb. cbv beta. lia.
+Qed.
+
+Lemma enc_opt_length : forall o, (2 <= length (enc_opt o))%nat.
+Proof. intros o. unfold enc_opt. len. lia. Qed.
+
+Lemma enc_opts_length : forall os, (length os <= length (enc_opts os))%nat.
+Proof.
+  induction os as [|o os IH]; [cbn [length]; lia|].
+  rewrite enc_opts_cons. len. pose proof (enc_opt_length o). lia.
+Qed.
+
+(** The loop run over an encoded option list consumes it exactly. *)
+Lemma parse_opts_enc : forall os pre rest fuel res,
+  (1 <= length pre)%nat -> Forall wf_opt os ->
+  parse_opts fuel (pre ++ enc_opts os ++ rest) (length pre + length (enc_opts os) - 1) = Ok res ->
+  parse_opts (length os + fuel) (pre ++ enc_opts os ++ rest) (length pre - 1) = Ok (os ++ res).
+Proof.
+  induction os as [|o os IH]; intros pre rest fuel res Hpre Hwf Hrest.
+  - cbn [enc_opts flat_map length app Nat.add] in *.
+    rewrite Nat.add_0_r in Hrest. exact Hrest.
+  - inversion Hwf as [|o' os' Ho Hos]; subst o' os'.
+    destruct o as [ty v]. unfold wf_opt in Ho. cbn [o_val] in Ho.
+    destruct (opt_name_wf ty) as [Hnn Hnu].
+    pose proof (to_dec_digits v) as Hdd.
+    remember (pre ++ enc_opts (mk_opt ty v :: os) ++ rest) as buf eqn:Ebuf.
+    assert (HA : buf = pre ++ opt_name ty ++ 0 :: (to_dec v ++ 0 :: enc_opts os ++ rest)).
+    { rewrite Ebuf, enc_opts_cons. unfold enc_opt. cbn [o_type o_val].
+      repeat rewrite <- app_assoc. reflexivity. }
+    assert (HB : buf = (pre ++ opt_name ty ++ [0]) ++ to_dec v ++ 0 :: (enc_opts os ++ rest)).
+    { rewrite HA. repeat rewrite <- app_assoc. reflexivity. }
+    assert (Hlo : length (enc_opt (mk_opt ty v))
+                  = (length (opt_name ty) + 1 + length (to_dec v) + 1)%nat).
+    { unfold enc_opt. cbn [o_type o_val]. len. lia. }
+    assert (HC : buf = (pre ++ enc_opt (mk_opt ty v)) ++ enc_opts os ++ rest).
+    { rewrite Ebuf, enc_opts_cons. repeat rewrite <- app_assoc. reflexivity. }
+    assert (Hlen : length buf = (length pre + length (enc_opt (mk_opt ty v))
+                                 + length (enc_opts os ++ rest))%nat).
+    { rewrite HC. len. lia. }
+    assert (HI : parse_opts (length os + fuel) buf
+                   (length pre + length (opt_name ty) + 1 + length (to_dec v))
+                 = Ok (os ++ res)).
+    { specialize (IH (pre ++ enc_opt (mk_opt ty v)) rest fuel res).
+      rewrite <- HC in IH.
+      replace (length pre + length (opt_name ty) + 1 + length (to_dec v))%nat
+        with (length (pre ++ enc_opt (mk_opt ty v)) - 1)%nat
+        by (rewrite app_length, Hlo; lia).
+      apply IH; [rewrite app_length; lia|exact Hos|].
+      rewrite <- Hrest. f_equal. rewrite enc_opts_cons. rewrite !app_length. lia. }
+    cbn [length Nat.add].
+    rewrite (parse_opts_turn_known (length os + fuel) buf (length pre - 1)
+               (opt_name ty) (length pre + length (opt_name ty))%nat
+               (to_dec v) (length pre + length (opt_name ty) + 1 + length (to_dec v))%nat ty).
+    + rewrite (decimal_roundtrip v Ho), HI. reflexivity.
+    + lia.
+    + replace (length pre - 1 + 1)%nat with (length pre) by lia. rewrite HA.
+      apply to_string_app; [reflexivity|lia|exact Hnn|exact Hnu].
+    + rewrite HB.
+      apply to_string_app;
+        [len; lia|lia|exact (digits_nonul _ Hdd)|exact (digits_utf8 _ Hdd)].
+    + apply option_name_recognised.
+Qed.
+
+(** ** Helper lemmas: [decode] unfolded on concrete prefixes (all by computation) *)
+
+Lemma decode_nil : decode [] = Err EShort.
+Proof. reflexivity. Qed.
+
+Lemma decode_single : forall a, decode [a] = Err EShort.
+Proof. reflexivity. Qed.
+
+Lemma decode_cons2 : forall a b rest,
+  decode (a :: b :: rest) =
+  match opcode_of_u16 (a * 256 + b) with
+  | None => Err EOpcode
+  | Some OpRrq => parse_rq (a :: b :: rest) OpRrq
+  | Some OpWrq => parse_rq (a :: b :: rest) OpWrq
+  | Some OpData => parse_data (a :: b :: rest)
+  | Some OpAck => parse_ack (a :: b :: rest)
+  | Some OpOack => parse_oack (a :: b :: rest)
+  | Some OpError => parse_error (a :: b :: rest)
+  end.
+Proof. reflexivity. Qed.
+
+Lemma parse_data_2 : forall a b, parse_data [a; b] = Err EU16.
+Proof. reflexivity. Qed.
+Lemma parse_data_3 : forall a b c, parse_data [a; b; c] = Err EU16.
+Proof. reflexivity. Qed.
+Lemma parse_data_4 : forall a b c d r,
+  parse_data (a :: b :: c :: d :: r) = Ok (Data (c * 256 + d) r).
+Proof. reflexivity. Qed.
+
+Lemma parse_ack_2 : forall a b, parse_ack [a; b] = Err EU16.
+Proof. reflexivity. Qed.
+Lemma parse_ack_3 : forall a b c, parse_ack [a; b; c] = Err EU16.
+Proof. reflexivity. Qed.
+Lemma parse_ack_4 : forall a b c d r,
+  parse_ack (a :: b :: c :: d :: r) = Ok (Ack (c * 256 + d)).
+Proof. reflexivity. Qed.
+
+Lemma parse_error_2 : forall a b, parse_error [a; b] = Err EU16.
+Proof. reflexivity. Qed.
+Lemma parse_error_3 : forall a b c, parse_error [a; b; c] = Err EU16.
+Proof. reflexivity. Qed.
+Lemma parse_error_4 : forall a b c d r,
+  parse_error (a :: b :: c :: d :: r) =
+  match errcode_of_u16 (c * 256 + d) with
+  | None => Err EErrCode
+  | Some code =>
+    match to_string (a :: b :: c :: d :: r) 4 with
+    | Ok (m, _) => Ok (Error code m)
+    | Err _ => Ok (Error code no_message)
+    | Panic => Panic
+    | Abort => Abort
+    end
+  end.
+Proof. reflexivity. Qed.
+
+Lemma u16_recompose : forall n, n / 256 * 256 + n mod 256 = n.
+Proof. intros n. rewrite N.mul_comm. symmetry. apply N.div_mod'. Qed.
+
+(** A request laid out as name, mode, encoded options and some remainder. *)
+Lemma parse_rq_enc : forall a b f m os rest res op buf,
+  buf = a :: b :: f ++ 0 :: m ++ 0 :: enc_opts os ++ rest ->
+  wf_str f -> wf_str m -> Forall wf_opt os ->
+  parse_opts (length buf - length os) buf
+    (length f + length m + 3 + length (enc_opts os)) = Ok res ->
+  parse_rq buf op =
+  match op with
+  | OpRrq => Ok (Rrq f m (os ++ res))
+  | OpWrq => Ok (Wrq f m (os ++ res))
+  | _ => Err EOpcode
+  end.
+Proof.
+  intros a b f m os rest res op buf Ebuf [Hfu Hfn] [Hmu Hmn] Hos Hrest.
+  assert (H1 : to_string buf 2 = Ok (f, (length f + 2)%nat)).
+  { rewrite Ebuf.
+    apply (to_string_app [a; b] f (m ++ 0 :: enc_opts os ++ rest));
+      [reflexivity|reflexivity|exact Hfn|exact Hfu]. }
+  assert (H2 : to_string buf (length f + 2 + 1)
+               = Ok (m, (length m + (length f + 2 + 1))%nat)).
+  { replace buf with ((a :: b :: f ++ [0]) ++ m ++ 0 :: (enc_opts os ++ rest)).
+    - apply to_string_app; [len; lia|reflexivity|exact Hmn|exact Hmu].
+    - rewrite Ebuf. cbn [app]. rewrite <- app_assoc. reflexivity. }
+  assert (H3 : parse_opts (length buf) buf (length m + (length f + 2 + 1)) = Ok (os ++ res)).
+  { pose proof (enc_opts_length os) as Hel.
+    assert (HP : buf = (a :: b :: f ++ 0 :: m ++ [0]) ++ enc_opts os ++ rest).
+    { rewrite Ebuf. cbn [app]. rewrite <- app_assoc. cbn [app].
+      rewrite <- app_assoc. reflexivity. }
+    assert (Hpl : length (a :: b :: f ++ 0 :: m ++ [0]) = (length f + length m + 4)%nat).
+    { len. lia. }
+    assert (Hlb : (length os <= length buf)%nat).
+    { rewrite HP. rewrite !app_length. lia. }
+    pose proof (parse_opts_enc os (a :: b :: f ++ 0 :: m ++ [0]) rest
+                  (length buf - length os) res) as HE.
+    rewrite <- HP, Hpl in HE.
+    replace (length os + (length buf - length os))%nat with (length buf) in HE by lia.
+    replace (length m + (length f + 2 + 1))%nat
+      with (length f + length m + 4 - 1)%nat by lia.
+    apply HE; [lia|exact Hos|].
+    rewrite <- Hrest. f_equal. lia. }
+  unfold parse_rq. rewrite H1. cbn [bind]. rewrite H2. cbn [bind]. rewrite H3. cbn [bind].
+  destruct op; reflexivity.
+Qed.
+
+Lemma decode_rrq : forall rest, decode (0 :: 1 :: rest) = parse_rq (0 :: 1 :: rest) OpRrq.
+Proof. reflexivity. Qed.
+Lemma decode_wrq : forall rest, decode (0 :: 2 :: rest) = parse_rq (0 :: 2 :: rest) OpWrq.
+Proof. reflexivity. Qed.
+Lemma decode_data : forall rest, decode (0 :: 3 :: rest) = parse_data (0 :: 3 :: rest).
+Proof. reflexivity. Qed.
+Lemma decode_ack : forall rest, decode (0 :: 4 :: rest) = parse_ack (0 :: 4 :: rest).
+Proof. reflexivity. Qed.
+Lemma decode_error : forall rest, decode (0 :: 5 :: rest) = parse_error (0 :: 5 :: rest).
+Proof. reflexivity. Qed.
+Lemma decode_oack : forall rest, decode (0 :: 6 :: rest) = parse_oack (0 :: 6 :: rest).
+Proof. reflexivity. Qed.
+
+Lemma decode_rq_plain : forall b op f m os buf,
+  buf = 0 :: b :: f ++ 0 :: m ++ 0 :: enc_opts os ->
+  wf_str f -> wf_str m -> Forall wf_opt os ->
+  parse_rq buf op =
+  match op with
+  | OpRrq => Ok (Rrq f m os)
+  | OpWrq => Ok (Wrq f m os)
+  | _ => Err EOpcode
+  end.
+Proof.
+  intros b op f m os buf Ebuf Hf Hm Hos.
+  pose proof (parse_rq_enc 0 b f m os [] [] op buf) as HR.
+  rewrite !app_nil_r in HR. apply HR; [exact Ebuf|exact Hf|exact Hm|exact Hos|].
+  apply parse_opts_done; rewrite Ebuf; len; lia.
+Qed.
 
 (** ** Round trip *)
 
 Theorem decode_encode : forall p, wf p -> decode (encode p) = Ok p.
-Admitted.
+Proof.
+  intros p Hwf. rewrite encode_layout.
+  destruct p as [f m os|f m os|n d|n|c m|os]; cbn [rfc_layout wf] in *.
+  - destruct Hwf as (Hf & Hm & Hos). rewrite <- enc_opts_rfc, decode_rrq.
+    exact (decode_rq_plain 1 OpRrq f m os _ eq_refl Hf Hm Hos).
+  - destruct Hwf as (Hf & Hm & Hos). rewrite <- enc_opts_rfc, decode_wrq.
+    exact (decode_rq_plain 2 OpWrq f m os _ eq_refl Hf Hm Hos).
+  - rewrite decode_data, parse_data_4, u16_recompose. reflexivity.
+  - rewrite decode_ack, parse_ack_4, u16_recompose. reflexivity.
+  - destruct Hwf as [Hmu Hmn]. rewrite decode_error, parse_error_4.
+    replace (errcode_of_u16 (0 * 256 + rfc_errcode c)) with (Some c)
+      by (destruct c; reflexivity).
+    assert (HT : to_string (0 :: 5 :: 0 :: rfc_errcode c :: m ++ [0]) 4
+                 = Ok (m, (length m + 4)%nat))
+      by exact (to_string_app [0; 5; 0; rfc_errcode c] m [] 4 (length m + 4)%nat
+                  eq_refl eq_refl Hmn Hmu).
+    rewrite HT. reflexivity.
+  - rewrite <- enc_opts_rfc, decode_oack. unfold parse_oack.
+    pose proof (enc_opts_length os) as Hel.
+    pose proof (parse_opts_enc os [0; 6] [] (length (0 :: 6 :: enc_opts os) - length os) [])
+      as HE.
+    rewrite !app_nil_r in HE. cbn [app length] in HE.
+    replace (length os + (S (S (length (enc_opts os))) - length os))%nat
+      with (S (S (length (enc_opts os)))) in HE by lia.
+    cbn [length]. change (2 - 1)%nat with 1%nat in HE.
+    rewrite HE; [reflexivity|lia|exact Hwf|].
+    apply parse_opts_done; cbn [length]; lia.
+Qed.
 
 (** ** Totality *)
 
+(** Outcome classification: a well-formed packet (given byte-sized input) or a
+    genuine error. *)
+Definition good (buf : bytes) (r : res packet) : Prop :=
+  (exists p, r = Ok p /\ (all_bytes buf -> wf p)) \/ (exists e, r = Err e /\ e <> EFuel).
+
+Lemma parse_opts_total : forall fuel buf zi,
+  (zi < length buf)%nat -> (length buf <= fuel + zi)%nat ->
+  (exists os, parse_opts fuel buf zi = Ok os /\ Forall wf_opt os) \/
+  (exists e, parse_opts fuel buf zi = Err e /\ e <> EFuel).
+Proof.
+  induction fuel as [|f IH]; intros buf zi Hlt Hfuel; [lia|].
+  destruct (Nat.lt_ge_cases (zi + 1) (length buf)) as [Hmore|Hdone].
+  - rewrite (parse_opts_more _ _ _ Hmore).
+    destruct (to_string_cases buf (zi + 1)) as [(name & z1 & H1)|(e & H1 & He)]; [lia| |].
+    + rewrite H1. cbn [bind].
+      destruct (to_string_ok _ _ _ _ H1) as (_ & Hz1 & Hlt1 & _).
+      destruct (to_string_cases buf (z1 + 1)) as [(val & z2 & H2)|(e & H2 & He)]; [lia| |].
+      * rewrite H2. cbn [bind].
+        destruct (to_string_ok _ _ _ _ H2) as (_ & Hz2 & Hlt2 & _).
+        assert (Hrec : (exists os, parse_opts f buf z2 = Ok os /\ Forall wf_opt os) \/
+                       (exists e, parse_opts f buf z2 = Err e /\ e <> EFuel))
+          by (apply IH; lia).
+        destruct (recognise name) as [ty|]; [|exact Hrec].
+        destruct (parse_usize val) as [v|] eqn:Ev.
+        -- destruct Hrec as [(os & H3 & Hos)|(e & H3 & He)]; rewrite H3; cbn [bind].
+           ++ left. eexists. split; [reflexivity|]. constructor; [|exact Hos].
+              destruct (parse_usize_some _ _ Ev) as (ds & _ & _ & _ & Hv). exact Hv.
+           ++ right. exists e. split; [reflexivity|exact He].
+        -- right. exists ENum. split; [reflexivity|discriminate].
+      * rewrite H2. cbn [bind]. right. exists e. split; [reflexivity|exact He].
+    + rewrite H1. cbn [bind]. right. exists e. split; [reflexivity|exact He].
+  - rewrite parse_opts_done by lia. left. exists []. split; [reflexivity|constructor].
+Qed.
+
+Lemma parse_rq_good : forall buf op, (2 <= length buf)%nat -> op = OpRrq \/ op = OpWrq ->
+  good buf (parse_rq buf op).
+Proof.
+  intros buf op Hlen Hop. unfold good, parse_rq.
+  destruct (to_string_cases buf 2 Hlen) as [(f & z1 & H1)|(e & H1 & He)].
+  - rewrite H1. cbn [bind].
+    destruct (to_string_ok _ _ _ _ H1) as (_ & Hz1 & Hlt1 & Hfu & Hfn & _).
+    destruct (to_string_cases buf (z1 + 1)) as [(m & z2 & H2)|(e & H2 & He)]; [lia| |].
+    + rewrite H2. cbn [bind].
+      destruct (to_string_ok _ _ _ _ H2) as (_ & Hz2 & Hlt2 & Hmu & Hmn & _).
+      destruct (parse_opts_total (length buf) buf z2) as [(os & H3 & Hos)|(e & H3 & He)];
+        [lia|lia| |].
+      * rewrite H3. cbn [bind]. left.
+        destruct Hop as [Hop|Hop]; subst op; eexists; (split; [reflexivity|]);
+          intros _; cbn [wf]; unfold wf_str; repeat split; assumption.
+      * rewrite H3. cbn [bind]. right. exists e. split; [reflexivity|exact He].
+    + rewrite H2. cbn [bind]. right. exists e. split; [reflexivity|exact He].
+  - rewrite H1. cbn [bind]. right. exists e. split; [reflexivity|exact He].
+Qed.
+
+Lemma all_bytes_cons_inv : forall x l, all_bytes (x :: l) -> x < 256 /\ all_bytes l.
+Proof.
+  intros x l H. split; [exact (Forall_inv H)|exact (Forall_inv_tail H)].
+Qed.
+
+Lemma u16_bound : forall a b c d r, all_bytes (a :: b :: c :: d :: r) -> wf_u16 (c * 256 + d).
+Proof.
+  intros a b c d r H.
+  apply all_bytes_cons_inv in H. destruct H as [_ H].
+  apply all_bytes_cons_inv in H. destruct H as [_ H].
+  apply all_bytes_cons_inv in H. destruct H as [Hc H].
+  apply all_bytes_cons_inv in H. destruct H as [Hd _].
+  unfold wf_u16. lia.
+Qed.
+
+Lemma no_message_wf : wf_str no_message.
+Proof. split; [reflexivity|apply nonulb_sound; reflexivity]. Qed.
+
+Lemma bad_u16_good : forall buf, good buf (Err EU16).
+Proof. intros buf. right. exists EU16. split; [reflexivity|discriminate]. Qed.
+
+Lemma decode_cases : forall buf, good buf (decode buf).
+Proof.
+  intros buf. destruct buf as [|a [|b rest]].
+  - right. exists EShort. split; [reflexivity|discriminate].
+  - right. exists EShort. split; [reflexivity|discriminate].
+  - rewrite decode_cons2.
+    destruct (opcode_of_u16 (a * 256 + b)) as [[]|].
+    + apply parse_rq_good; [cbn [length]; lia|left; reflexivity].
+    + apply parse_rq_good; [cbn [length]; lia|right; reflexivity].
+    + destruct rest as [|c [|d r]].
+      * rewrite parse_data_2. apply bad_u16_good.
+      * rewrite parse_data_3. apply bad_u16_good.
+      * rewrite parse_data_4. left. eexists. split; [reflexivity|].
+        intros Hb. cbn [wf]. exact (u16_bound _ _ _ _ _ Hb).
+    + destruct rest as [|c [|d r]].
+      * rewrite parse_ack_2. apply bad_u16_good.
+      * rewrite parse_ack_3. apply bad_u16_good.
+      * rewrite parse_ack_4. left. eexists. split; [reflexivity|].
+        intros Hb. cbn [wf]. exact (u16_bound _ _ _ _ _ Hb).
+    + destruct rest as [|c [|d r]].
+      * rewrite parse_error_2. apply bad_u16_good.
+      * rewrite parse_error_3. apply bad_u16_good.
+      * rewrite parse_error_4.
+        destruct (errcode_of_u16 (c * 256 + d)) as [code|].
+        -- destruct (to_string_cases (a :: b :: c :: d :: r) 4) as [(m & z & H)|(e & H & _)];
+             [cbn [length]; lia| |].
+           ++ rewrite H. left. eexists. split; [reflexivity|]. intros _. cbn [wf].
+              destruct (to_string_ok _ _ _ _ H) as (_ & _ & _ & Hmu & Hmn & _).
+              split; assumption.
+           ++ rewrite H. left. eexists. split; [reflexivity|]. intros _. cbn [wf].
+              exact no_message_wf.
+        -- right. exists EErrCode. split; [reflexivity|discriminate].
+    + unfold parse_oack.
+      destruct (parse_opts_total (length (a :: b :: rest)) (a :: b :: rest) 1)
+        as [(os & H3 & Hos)|(e & H3 & He)]; [cbn [length]; lia|lia| |].
+      * rewrite H3. cbn [bind]. left. eexists. split; [reflexivity|]. intros _. exact Hos.
+      * rewrite H3. cbn [bind]. right. exists e. split; [reflexivity|exact He].
+    + right. exists EOpcode. split; [reflexivity|discriminate].
+Qed.
+
 Theorem decode_never_panics : forall buf,
   decode buf <> Panic /\ decode buf <> Abort /\ decode buf <> Err EFuel.
-Admitted.
+Proof.
+  intros buf. destruct (decode_cases buf) as [(p & H & _)|(e & H & He)]; rewrite H.
+  - repeat split; discriminate.
+  - repeat split; try discriminate. intros E. injection E as E. exact (He E).
+Qed.
 
 Theorem decode_total : forall buf, (exists p, decode buf = Ok p) \/ (exists e, decode buf = Err e /\ e <> EFuel).
-Admitted.
+Proof.
+  intros buf. destruct (decode_cases buf) as [(p & H & _)|(e & H & He)].
+  - left. exists p. exact H.
+  - right. exists e. split; [exact H|exact He].
+Qed.
 
 (** ** Rejections *)
 
 Theorem reject_short : forall buf, (length buf < 2)%nat -> decode buf = Err EShort.
-Admitted.
+Proof.
+  intros buf H. destruct buf as [|a [|b rest]]; [reflexivity|reflexivity|].
+  cbn [length] in H. lia.
+Qed.
 
 Theorem reject_unknown_opcode : forall a b rest,
   opcode_of_u16 (a * 256 + b) = None -> decode (a :: b :: rest) = Err EOpcode.
-Admitted.
+Proof.
+  intros a b rest H. rewrite decode_cons2, H. reflexivity.
+Qed.
 
 Theorem reject_short_header : forall a b rest o,
   opcode_of_u16 (a * 256 + b) = Some o -> (o = OpData \/ o = OpAck \/ o = OpError) ->
   (length rest < 2)%nat -> decode (a :: b :: rest) = Err EU16.
-Admitted.
+Proof.
+  intros a b rest o Ho Hcase Hlen. rewrite decode_cons2, Ho.
+  destruct rest as [|c [|d r]]; [| |cbn [length] in Hlen; lia];
+    destruct Hcase as [Hc|[Hc|Hc]]; subst o; reflexivity.
+Qed.
 
 Theorem reject_bad_errcode : forall a b c d rest,
   opcode_of_u16 (a * 256 + b) = Some OpError -> errcode_of_u16 (c * 256 + d) = None ->
   decode (a :: b :: c :: d :: rest) = Err EErrCode.
-Admitted.
+Proof.
+  intros a b c d rest Ho He. rewrite decode_cons2, Ho, parse_error_4, He. reflexivity.
+Qed.
 
 (** A request whose file name or mode lacks its terminator is rejected. *)
 Theorem reject_request_without_nul : forall a b rest o,
   opcode_of_u16 (a * 256 + b) = Some o -> (o = OpRrq \/ o = OpWrq) ->
   (forall f m tail, rest <> f ++ 0 :: m ++ 0 :: tail) ->
   exists e, decode (a :: b :: rest) = Err e.
-Admitted.
+Proof.
+  intros a b rest o Ho Hcase Hno. rewrite decode_cons2, Ho.
+  assert (Hrq : exists e, parse_rq (a :: b :: rest) o = Err e).
+  { unfold parse_rq. set (buf := a :: b :: rest).
+    destruct (to_string_cases buf 2) as [(f & z1 & H1)|(e & H1 & _)];
+      [unfold buf; cbn [length]; lia| |].
+    - rewrite H1. cbn [bind].
+      destruct (to_string_ok _ _ _ _ H1) as (_ & _ & Hlt1 & _ & _ & Hsk1).
+      destruct (to_string_cases buf (z1 + 1)) as [(m & z2 & H2)|(e & H2 & _)]; [lia| |].
+      + exfalso.
+        destruct (to_string_ok _ _ _ _ H2) as (_ & _ & _ & _ & _ & Hsk2).
+        replace (S z1) with (z1 + 1)%nat in Hsk1 by lia. rewrite Hsk2 in Hsk1.
+        unfold buf in Hsk1 at 1. cbn [skipn] in Hsk1.
+        exact (Hno f m _ Hsk1).
+      + rewrite H2. cbn [bind]. exists e. reflexivity.
+    - rewrite H1. cbn [bind]. exists e. reflexivity. }
+  destruct Hcase as [Hc|Hc]; subst o; exact Hrq.
+Qed.
+
+(** If the loop accepts, it stopped on the last byte; when it made at least one
+    turn that byte is the NUL closing the last value. *)
+Lemma parse_opts_end : forall fuel buf zi os,
+  parse_opts fuel buf zi = Ok os -> (zi < length buf)%nat ->
+  (zi + 1 = length buf)%nat \/ exists pre, buf = pre ++ [0].
+Proof.
+  induction fuel as [|f IH]; intros buf zi os H Hlt.
+  - destruct (Nat.lt_ge_cases (zi + 1) (length buf)) as [Hmore|Hdone]; [|left; lia].
+    rewrite (parse_opts_zero_lt _ _ Hmore) in H. discriminate H.
+  - destruct (Nat.lt_ge_cases (zi + 1) (length buf)) as [Hmore|Hdone]; [|left; lia].
+    right. rewrite (parse_opts_more _ _ _ Hmore) in H.
+    destruct (to_string buf (zi + 1)) as [[name z1]|e| |] eqn:E1;
+      cbn [bind] in H; try discriminate H.
+    destruct (to_string buf (z1 + 1)) as [[val z2]|e| |] eqn:E2;
+      cbn [bind] in H; try discriminate H.
+    destruct (to_string_ok _ _ _ _ E2) as (_ & _ & Hz2 & _).
+    assert (HR : exists os', parse_opts f buf z2 = Ok os').
+    { destruct (recognise name) as [ty|].
+      - destruct (parse_usize val) as [v|]; [|discriminate H].
+        destruct (parse_opts f buf z2) as [os'|e| |]; cbn [bind] in H; try discriminate H.
+        exists os'. reflexivity.
+      - exists os. exact H. }
+    destruct HR as (os' & HR).
+    destruct (IH buf z2 os' HR Hz2) as [Hend|Hex]; [|exact Hex].
+    eapply to_string_last; [exact E2|lia].
+Qed.
+
+Lemma parse_rq_end : forall buf op p, parse_rq buf op = Ok p -> exists pre, buf = pre ++ [0].
+Proof.
+  intros buf op p H. unfold parse_rq in H.
+  destruct (to_string buf 2) as [[f z1]|e| |] eqn:E1; cbn [bind] in H; try discriminate H.
+  destruct (to_string buf (z1 + 1)) as [[m z2]|e| |] eqn:E2;
+    cbn [bind] in H; try discriminate H.
+  destruct (parse_opts (length buf) buf z2) as [os|e| |] eqn:E3;
+    cbn [bind] in H; try discriminate H.
+  destruct (to_string_ok _ _ _ _ E2) as (_ & _ & Hz2 & _).
+  destruct (parse_opts_end _ _ _ _ E3 Hz2) as [Hend|Hex]; [|exact Hex].
+  eapply to_string_last; [exact E2|lia].
+Qed.
+
+Lemma parse_data_shape : forall buf p, parse_data buf = Ok p -> exists n d, p = Data n d.
+Proof.
+  intros buf p. unfold parse_data.
+  destruct (slice_from buf 2) as [t|e| |]; cbn [bind]; try discriminate.
+  destruct (to_u16 t) as [n|e| |]; cbn [bind]; try discriminate.
+  destruct (slice_from buf 4) as [d|e| |]; cbn [bind]; try discriminate.
+  intros H. injection H as <-. exists n, d. reflexivity.
+Qed.
+
+Lemma parse_ack_shape : forall buf p, parse_ack buf = Ok p -> exists n, p = Ack n.
+Proof.
+  intros buf p. unfold parse_ack.
+  destruct (slice_from buf 2) as [t|e| |]; cbn [bind]; try discriminate.
+  destruct (to_u16 t) as [n|e| |]; cbn [bind]; try discriminate.
+  intros H. injection H as <-. exists n. reflexivity.
+Qed.
+
+Lemma parse_error_shape : forall buf p, parse_error buf = Ok p -> exists c m, p = Error c m.
+Proof.
+  intros buf p. unfold parse_error.
+  destruct (slice_from buf 2) as [t|e| |]; cbn [bind]; try discriminate.
+  destruct (to_u16 t) as [n|e| |]; cbn [bind]; try discriminate.
+  destruct (errcode_of_u16 n) as [c|]; try discriminate.
+  destruct (to_string buf 4) as [[m z]|e| |]; try discriminate;
+    intros H; injection H as <-; eexists; eexists; reflexivity.
+Qed.
 
 (** An accepted request (or non-empty OACK) ends with a NUL: no dangling, unterminated option text. *)
 Theorem accepted_request_ends_with_nul : forall buf p,
@@ -126,7 +847,29 @@ Theorem accepted_request_ends_with_nul : forall buf p,
   | Oack _ => (length buf = 2)%nat \/ exists pre, buf = pre ++ [0]
   | _ => True
   end.
-Admitted.
+Proof.
+  intros buf p H. destruct buf as [|a [|b rest]].
+  - rewrite decode_nil in H. discriminate H.
+  - rewrite decode_single in H. discriminate H.
+  - rewrite decode_cons2 in H.
+    destruct (opcode_of_u16 (a * 256 + b)) as [[]|]; [| | | | | |discriminate H].
+    + destruct (parse_rq_end _ _ _ H) as [pre Hpre].
+      destruct p; try exact I; [exists pre; exact Hpre|exists pre; exact Hpre|
+                                 right; exists pre; exact Hpre].
+    + destruct (parse_rq_end _ _ _ H) as [pre Hpre].
+      destruct p; try exact I; [exists pre; exact Hpre|exists pre; exact Hpre|
+                                 right; exists pre; exact Hpre].
+    + destruct (parse_data_shape _ _ H) as (n & d & ->). exact I.
+    + destruct (parse_ack_shape _ _ H) as (n & ->). exact I.
+    + destruct (parse_error_shape _ _ H) as (c & m & ->). exact I.
+    + unfold parse_oack in H.
+      destruct (parse_opts (length (a :: b :: rest)) (a :: b :: rest) 1) as [os| | |] eqn:E3;
+        cbn [bind] in H; try discriminate H.
+      injection H as <-.
+      destruct (parse_opts_end _ _ _ _ E3) as [Hend|Hex]; [cbn [length]; lia| |].
+      * left. lia.
+      * right. exact Hex.
+Qed.
 
 (** One turn of the option loop: a recognised name with a value that is not a number is an error. *)
 Theorem reject_nonnumeric_option : forall f buf zi name z1 val z2 ty,
@@ -134,18 +877,57 @@ Theorem reject_nonnumeric_option : forall f buf zi name z1 val z2 ty,
   to_string buf (zi + 1) = Ok (name, z1) -> to_string buf (z1 + 1) = Ok (val, z2) ->
   recognise name = Some ty -> parse_usize val = None ->
   parse_opts (S f) buf zi = Err ENum.
-Admitted.
+Proof.
+  intros f buf zi name z1 val z2 ty Hlt H1 H2 Hr Hp.
+  rewrite (parse_opts_turn_known f buf zi name z1 val z2 ty); [|lia|exact H1|exact H2|exact Hr].
+  rewrite Hp. reflexivity.
+Qed.
 
 (** ** Stability of whatever is accepted *)
 
 Theorem decode_ok_wf : forall buf p, all_bytes buf -> decode buf = Ok p -> wf p.
-Admitted.
+Proof.
+  intros buf p Hb H. destruct (decode_cases buf) as [(p' & H' & Hwf)|(e & H' & _)].
+  - rewrite H' in H. injection H as <-. exact (Hwf Hb).
+  - rewrite H' in H. discriminate H.
+Qed.
 
 Theorem decode_stable : forall buf p, all_bytes buf -> decode buf = Ok p -> decode (encode p) = Ok p.
-Admitted.
+Proof.
+  intros buf p Hb H. apply decode_encode. exact (decode_ok_wf buf p Hb H).
+Qed.
 
 (** Unknown option names are dropped, recognised ones kept in order (decoder side of C09). *)
 Theorem decode_drops_unknown_options : forall f m os name val,
   wf (Rrq f m os) -> wf_str name -> wf_str val -> recognise name = None ->
   decode (encode (Rrq f m os) ++ name ++ 0 :: val ++ [0]) = Ok (Rrq f m os).
-Admitted.
+Proof.
+  intros f m os name val Hwf [Hnu Hnn] [Hvu Hvn] Hrec.
+  cbn [wf] in Hwf. destruct Hwf as (Hf & Hm & Hos).
+  rewrite encode_layout. cbn [rfc_layout]. rewrite <- enc_opts_rfc.
+  remember (name ++ 0 :: val ++ [0]) as rest eqn:Erest.
+  remember (0 :: 1 :: f ++ 0 :: m ++ 0 :: enc_opts os ++ rest) as buf eqn:Ebuf.
+  assert (HE : (0 :: 1 :: f ++ 0 :: m ++ 0 :: enc_opts os) ++ rest = buf).
+  { rewrite Ebuf. cbn [app]. rewrite <- app_assoc. cbn [app]. rewrite <- app_assoc.
+    reflexivity. }
+  rewrite HE. rewrite Ebuf at 1. rewrite decode_rrq, <- Ebuf.
+  pose proof (parse_rq_enc 0 1 f m os rest [] OpRrq buf Ebuf Hf Hm Hos) as HR.
+  rewrite app_nil_r in HR. apply HR. clear HR.
+  pose proof (enc_opts_length os) as Hel.
+  set (pre := 0 :: 1 :: f ++ 0 :: m ++ 0 :: enc_opts os).
+  assert (Hpl : length pre = (length f + length m + 4 + length (enc_opts os))%nat).
+  { unfold pre. len. lia. }
+  assert (Hbl : length buf = (length pre + length name + 1 + length val + 1)%nat).
+  { rewrite <- HE, Erest. fold pre. len. lia. }
+  destruct (length buf - length os)%nat as [|k] eqn:Ek; [lia|].
+  rewrite (parse_opts_turn_unknown k buf (length f + length m + 3 + length (enc_opts os))
+             name (length pre + length name)%nat
+             val (length pre + length name + 1 + length val)%nat).
+  - apply parse_opts_done; lia.
+  - lia.
+  - rewrite <- HE, Erest. fold pre. apply to_string_app; [lia|lia|exact Hnn|exact Hnu].
+  - replace buf with ((pre ++ name ++ [0]) ++ val ++ 0 :: []).
+    + apply to_string_app; [len; lia|lia|exact Hvn|exact Hvu].
+    + rewrite <- HE, Erest. fold pre. repeat rewrite <- app_assoc. reflexivity.
+  - exact Hrec.
+Qed.
